@@ -475,6 +475,22 @@ func isNullArgumentError(err error) bool {
 	return errors.As(err, &nullErr)
 }
 
+// incomparableError reports an ordering comparison between a number and a
+// value that is not a number. The comparison has no value; a condition built on
+// it is unknown, not a failure (see evaluateConditionWithNull).
+type incomparableError struct {
+	left, right any
+}
+
+func (e *incomparableError) Error() string {
+	return fmt.Sprintf("cannot compare incompatible types: %T and %T", e.left, e.right)
+}
+
+func isIncomparableError(err error) bool {
+	var incomparable *incomparableError
+	return errors.As(err, &incomparable)
+}
+
 // compareValues compares two values
 func compareValues(left, right any, operator string) (bool, error) {
 	// Handle NULL values
@@ -507,8 +523,15 @@ func compareValues(left, right any, operator string) (bool, error) {
 			rightStr := fmt.Sprintf("%v", right)
 			return compareStrings(leftStr, rightStr, operator)
 		}
+		// Two texts are ordered as texts, also when one of them happens to
+		// look like a number ('7' > 'ab'); so is LIKE
+		if _, ok := left.(string); ok {
+			if _, ok := right.(string); ok {
+				return compareStrings(left.(string), right.(string), operator)
+			}
+		}
 		// For size comparison, return error
-		return false, fmt.Errorf("cannot compare incompatible types: %T and %T", left, right)
+		return false, &incomparableError{left: left, right: right}
 	}
 
 	// String comparison
@@ -1022,6 +1045,12 @@ func evaluateConditionWithNull(node *ExprNode, data map[string]any) (bool, bool,
 				return false, true, nil
 			}
 			result, err := compareValues(leftValue, rightValue, operator)
+			if isIncomparableError(err) {
+				// a number ordered against a text that is not a number: the
+				// comparison is unknown, so an enclosing NOT is unknown as well
+				// and a CASE takes its next WHEN / ELSE instead of failing
+				return false, true, nil
+			}
 			return result, false, err
 		}
 	}
